@@ -359,6 +359,12 @@ func c19Gateway(rig *srvRig, q *c19Req, id int) c19Obs {
 	return ob
 }
 
+// how the harness spells the "id" member of its JSON-RPC requests ("" = the plain number)
+var jsonrpcIDSpellings = []string{
+	"", "", `"req-%d"`, "", `"\u0007bell-%d"`, "", `"tab\tquote\"back\\slash-%d"`, `-%d`, `"\u007fdel-%d"`, "",
+	`"\udbff\udfff-%d"`, `"日本-%d"`, "", `"<html>&amp;-%d"`, `"\u000b\u0001-%d"`, `"%d"`, "",
+}
+
 func c19JSONRPC(rig *srvRig, q *c19Req, id int) c19Obs {
 	path, method := q.pathMethod()
 	meta := map[string]string{"ing": "jsonrpc"}
@@ -366,12 +372,25 @@ func c19JSONRPC(rig *srvRig, q *c19Req, id int) c19Obs {
 		meta[k] = v
 	}
 	iq := ingReq{id: id, path: path, method: method, meta: meta, args: c19Args(q, id)}
+	// JSON-RPC ids are numbers or strings – any string JSON can spell (the id only travels back in the
+	// response envelope; it must never change what the call yields)
+	if sp := jsonrpcIDSpellings[id%len(jsonrpcIDSpellings)]; sp != "" {
+		iq.idJSON = fmt.Sprintf(sp, id)
+	}
 	res, out := jsonrpcCall(rig.addr, iq)
 	if res.connErr != nil {
 		return c19Obs{kind: "closed"}
 	}
 	kind, msg := jsonrpcOutcome(res, out)
 	ob := c19Obs{kind: kind, errText: msg}
+	if iq.idJSON != "" && kind == "result" {
+		var sent, got interface{}
+		json.Unmarshal([]byte(iq.idJSON), &sent)
+		json.Unmarshal(out["id"], &got)
+		if !reflect.DeepEqual(sent, got) {
+			return c19Obs{kind: "result-with-another-id", errText: fmt.Sprintf("sent id %s, response id %s", iq.idJSON, string(out["id"]))}
+		}
+	}
 	if kind == "result" {
 		ob.payload = []byte(out["result"])
 	}
